@@ -582,3 +582,37 @@ Lemma init_map (l : list A) :
 Proof. split; reflexivity. Qed.
 
 End MapProofs.
+
+(* ---------- a row source fed by several tables is the flat generator over their concatenation ---------- *)
+Section ChunkProofs.
+Variable A : Type.
+
+Lemma cnext_none (cs : list (list A)) : cnext cs = None <-> concat cs = [].
+Proof.
+  induction cs as [|c t IH]; cbn [cnext concat]; [tauto|].
+  destruct c as [|r rest]; cbn [app]; [exact IH|]. split; intros H; discriminate.
+Qed.
+
+Lemma cnext_some (cs : list (list A)) r cs' :
+  cnext cs = Some (r, cs') -> concat cs = r :: concat cs'.
+Proof.
+  induction cs as [|c t IH]; cbn [cnext concat]; [discriminate|].
+  destruct c as [|x rest]; cbn [app].
+  - exact IH.
+  - intros H. inversion H; subst. reflexivity.
+Qed.
+
+Lemma cdrain_concat (fuel : nat) : forall cs : list (list A),
+  length (concat cs) < fuel -> cdrain fuel cs = concat cs.
+Proof.
+  induction fuel as [|k IH]; intros cs Hf; [lia|]. cbn [cdrain].
+  destruct (cnext cs) as [[r cs']|] eqn:E.
+  - pose proof (cnext_some cs r cs' E) as H. rewrite H in *. cbn [length] in Hf.
+    f_equal. apply IH. lia.
+  - apply cnext_none in E. now rewrite E.
+Qed.
+
+Lemma chunk_rows_concat (cs : list (list A)) : chunk_rows cs = concat cs.
+Proof. unfold chunk_rows. apply cdrain_concat. lia. Qed.
+
+End ChunkProofs.
